@@ -77,6 +77,33 @@ fn main() {
             };
             writeln!(out, "{v}").unwrap();
         }
+        // dump <font> : decoded layout tables (debugging aid)
+        "dump" => {
+            let data = std::fs::read(&args[2]).unwrap();
+            let font = write_fonts::read::FontRef::new(&data).unwrap();
+            let sh = eval::otl::shaper_for(&font, &[]).unwrap();
+            for (t, l) in [("GSUB", &sh.gsub), ("GPOS", &sh.gpos)] {
+                if let Some(l) = l {
+                    println!("{t} scripts {:?}", l.scripts);
+                    for (i, f) in l.features.iter().enumerate() {
+                        println!("{t} feature {i} {} lookups {:?}", f.tag, f.lookups);
+                    }
+                    for (i, lk) in l.lookups.iter().enumerate() {
+                        println!("{t} lookup {i} {lk:?}");
+                    }
+                    for (i, r) in l.fvars.iter().enumerate() {
+                        println!("{t} featurevariation {i} {r:?}");
+                    }
+                }
+            }
+        }
+        // c16 <manifest.json> <font> : designspace rules vs compiled FeatureVariations
+        "c16" => {
+            let man: serde_json::Value = serde_json::from_slice(&std::fs::read(&args[2]).unwrap()).unwrap();
+            let data = std::fs::read(&args[3]).unwrap();
+            let v = std::panic::catch_unwind(|| eval::rules::check(&man, &data)).unwrap_or_else(|_| json!({"oracle_panicked": true}));
+            writeln!(out, "{v}").unwrap();
+        }
         _ => {
             eprintln!("usage: voracle c05 <font>... | src <manifest> <font> [opts]");
             std::process::exit(2);
